@@ -568,6 +568,36 @@ func checkMemReader(c *Ctx, rule string, ri *readerInfo) map[token.Pos]bool {
 						form = "forward moved back by one byte (above begin) without looking for the beginning of the rune: a multi-byte character is retracted in part"
 					}
 				}
+				// forward += size (+ k on some path): more bytes are consumed than the rune that is handed out occupies (a CR LF pair
+				// folded into one '\n'), while a retraction steps back by one decoded rune: part of what was consumed stays in the lexeme
+				if bo.Op == token.ADD {
+					var plus func(v ssa.Value, d int) bool
+					plus = func(v ssa.Value, d int) bool {
+						if d > 4 {
+							return false
+						}
+						switch x := v.(type) {
+						case *ssa.Phi:
+							for _, e := range x.Edges {
+								if plus(e, d+1) {
+									return true
+								}
+							}
+						case *ssa.BinOp:
+							if x.Op == token.ADD {
+								if k, isK := x.Y.(*ssa.Const); isK && k.Value != nil && k.Int64() > 0 {
+									if _, isD := decodeSize(f, x.X, "unicode/utf8.DecodeRune"); isD {
+										return true
+									}
+								}
+							}
+						}
+						return false
+					}
+					if plus(bo.Y, 0) {
+						definite, form = true, "forward advanced by the size of the decoded rune plus a constant on some path: more is consumed than the one rune Next hands out, and Retract, which steps back by one rune, gives back only part of it (the rest stays in the pending lexeme)"
+					}
+				}
 				switch bo.Op {
 				case token.ADD:
 					if sl, isD := decodeSize(f, bo.Y, "unicode/utf8.DecodeRune"); isD {
